@@ -192,6 +192,9 @@ func ExportSchema(m *meta.Module) abs.Schema {
 				case *meta.LeafList:
 					n.Kind = "leaflist"
 					n.Type = TypeName(y.Type())
+					if y.HasDefault() {
+						n.Dflt = append([]string{}, y.Default()...)
+					}
 					typeTables(&n, y.Type())
 				}
 				out = append(out, n)
